@@ -363,7 +363,7 @@ func runC15(c runner.Case, env *runner.Env) (res runner.Result) {
 	case "receiver":
 		for i := 0; i < p.Count; i++ {
 			db := "db"
-			sc := recvx.Scenario{DB: db, Own: "self", DLimit: 2, ZLimit: 3, Consumer: "fast", Bound: 300}
+			sc := recvx.Scenario{DB: db, Own: "self", DLimit: 2, ZLimit: 3, Consumer: "fast", Bound: 1500}
 			ni := 1 + r.Intn(3)
 			for k := 0; k < ni; k++ {
 				is := recvx.InstSpec{Name: fmt.Sprintf("i%d", k)}
